@@ -8,3 +8,11 @@ Definition chk_delta (d2r : float) (left_side : bool) (root tip sat : float) (mx
   all2 fbits_eq (map (delta_flap d2r left_side root tip sat mx) spans) expect.
 Definition chk_cf (root tip : float) (cf : cinput float) (spans expect : list float) : bool :=
   all2 fbits_eq (map (flap_fraction root tip cf) spans) expect.
+
+(* the finite-difference step of a control derivative applied to a recorded table-valued input (both columns bit for bit) *)
+Definition chk_shift_table (tbl : list (float * float)) (d : float) (e : list (float * float)) : bool :=
+  match shift_input (CTable tbl) d with
+  | CTable t => Nat.eqb (List.length t) (List.length e) &&
+                forallb (fun p => fbits_eq (fst (fst p)) (fst (snd p)) && fbits_eq (snd (fst p)) (snd (snd p))) (combine t e)
+  | CConst _ => false
+  end.
